@@ -83,7 +83,9 @@ MoveOK(ev) ==
     [] op = "transpose" -> Eq(res, TransposeSem(Pre(O(ev, 2))))
     [] op = "copy" -> IF HasR(ev) THEN Eq(res, Pre(O(ev, 2))) ELSE Eq(res, CopySem(Pre(O(ev, 1)), Pre(O(ev, 2))))
     [] op = "copy_row" -> Eq(res, CopyRowSem(Pre(O(ev, 1)), ev.p.i, Pre(O(ev, 2)), ev.p.j))
-    [] op = "submatrix" -> Eq(res, SubmatrixSem(Pre(O(ev, 2)), ev.p.lr, ev.p.lc, ev.p.hr, ev.p.hc))
+    \* a supplied destination larger than the block receives it in its upper left corner and keeps the rest
+    [] op = "submatrix" -> LET B == SubmatrixSem(Pre(O(ev, 2)), ev.p.lr, ev.p.lc, ev.p.hr, ev.p.hc) IN
+                           IF HasR(ev) THEN Eq(res, B) ELSE Eq(res, CopySem(Pre(O(ev, 1)), B))
     [] op = "concat" -> Eq(res, ConcatSem(Pre(O(ev, 2)), Pre(O(ev, 3))))
     [] op = "stack" -> Eq(res, StackSem(Pre(O(ev, 2)), Pre(O(ev, 3))))
     [] op = "extract_u" -> Eq(res, ExtractUSem(Pre(O(ev, 2))))
